@@ -42,6 +42,9 @@ TrustDom == [range  |-> {"exact", "shorter", "longer", "recordInsertedAfterSigni
 GoodTrust == [range |-> "exact", key |-> "signer", chain |-> "anchored", store |-> "ca", cons |-> "email", alter |-> "none"]
 ChainOk(c) == \/ c.chain \in {"anchored", "viaEmbeddedIntermediate"} /\ c.store = "ca"
 ConsOk(c) == c.cons \in {"email", "emailAndOrg", "fileLevelRight", "longExact"}
+(* Trusted is a function of the file and of the configuration of the context that is ASKED to verify it (anchors, default constraints) -- *)
+(* the context under which the file object was parsed is not a parameter: the replay verifies every case a second time on a file parsed   *)
+(* under a context configured for the opposite outcome                                                                                  *)
 Trusted(c) == c.range = "exact" /\ c.key = "signer" /\ ChainOk(c) /\ ConsOk(c) /\ c.alter = "none"
 
 Alt(g, D) == UNION {{<<f, v>> : v \in D[f] \ {g[f]}} : f \in DOMAIN g}
